@@ -23,7 +23,7 @@ RULE = (
     "from UFL/basix. Non-trivial = form with >= 2 integral types, or >= 3 distinct ids, or a tuple id, or a prism facet "
     "integral; distinct by spec hash."
 )
-PROFILE = {"measures": ["dx", "ds", "dS", "dP"], "ids": "rich", "max_integrals": 4, "depth": 1, "maxdeg": 2, "max_qdeg": 3,
+PROFILE = {"bessel": True, "measures": ["dx", "ds", "dS", "dP"], "ids": "rich", "max_integrals": 4, "depth": 1, "maxdeg": 2, "max_qdeg": 3,
            "p_scheme": 0.05, "p_vertex": 0.03, "ncoef": (0, 3), "nconst": (0, 3)}
 ITYPES = ("cell", "exterior_facet", "interior_facet", "vertex")
 
